@@ -117,8 +117,10 @@ def check(run: common.Run, drv: common.Driver, rng: random.Random, tier: str) ->
     n_files = 25 if tier == "quick" else 500
     with R.Scratch() as sc:
         for k in range(n_files):
-            d = sc.path(f"p{k}")
-            os.makedirs(d)
+            # half of the programs re-use ONE directory: the same paths with new contents, compiled again
+            # in this same process (a result cached by path would be stale)
+            d = sc.path("reused" if k % 2 else f"p{k}")
+            os.makedirs(d, exist_ok=True)
             # imported file with a few integer constants
             imp_env: Dict[str, int] = {}
             imp_lines = ["proto shared", ""]
